@@ -18,6 +18,7 @@ VOID = {"hr", "br", "img", "input", "link", "meta", "base", "embed", "source"}
 
 SCHEME_VALUES = ["https://example.org/x", "http://a/b?c=d&e", "ftp://f", "mailto:a@b", "magnet:?xt=1",
                  "matrix:u/a:b", "mxc://server/media", "javascript:alert(1)", "JAVASCRIPT:alert(1)",
+                 "magnet:?tr=udp://t:1", "mailto:a@b?x=https://y", "javascript://x%0aalert(1)", "data:x,https://y", "x-custom://https://y",
                  "JaVaScRiPt:alert(1)", " javascript:alert(1)", "\tjavascript:alert(1)",
                  "java\tscript:alert(1)", "java\nscript:alert(1)", "\x01javascript:alert(1)",
                  "data:text/html;base64,PHNjcmlwdD4=", "DATA:text/html,x", "vbscript:x", "file:///etc/passwd",
@@ -190,7 +191,13 @@ def deep_chain(rng, n, elements=None):
 
 # --- clean documents (C15 preservation) -------------------------------------------------------
 CLEAN_TEXT = ["text", "hello world", "a &amp; b", "&lt;tag&gt;", "é", "\U0001f600", "1 &lt; 2", "x"]
-GOOD_HREF = ["https://example.org/x?y=1", "http://a", "ftp://f", "mailto:a@b.c", "magnet:?xt=1"]
+GOOD_HREF = ["https://example.org/x?y=1", "http://a", "ftp://f", "mailto:a@b.c", "magnet:?xt=1",
+             # allowed schemes written without '//' whose remainder contains another URI, colons, slashes
+             "magnet:?xt=urn:btih:abc&amp;tr=udp://tracker.example.org:6969", "mailto:a@b.c?subject=https://x.org/y",
+             "mailto:a@b.c?body=javascript:x", "https://example.org/?next=javascript:alert(1)", "ftp://user:pw@f:21/x",
+             "https://example.org/#frag:ment", "mailto:x", "http://[::1]:8080/"]
+# (upper-case spellings of allowed schemes are deliberately not "clean": the sanitizer compares scheme
+# names literally and unwraps such links, which removes more than necessary but nothing it must keep)
 
 
 def clean_inline(rng, depth, mode):
@@ -199,7 +206,7 @@ def clean_inline(rng, depth, mode):
     el = rng.choice(["b", "i", "u", "strong", "em", "s", "del", "code", "span", "sup", "sub", "a", "br", "img"])
     attrs = []
     if el == "a":
-        href = rng.choice(GOOD_HREF + (["matrix:u/a:b.c"] if mode == "compat" else []))
+        href = rng.choice(GOOD_HREF + (["matrix:u/a:b.c", "matrix:r/room:hs.org?via=hs.org&amp;src=https://hs.org"] if mode == "compat" else []))
         attrs = [("href", href)] + ([("target", "_blank")] if rng.random() < 0.3 else [])
     elif el == "img":
         attrs = [("src", "mxc://srv/id%d" % rng.randint(0, 9))]
